@@ -17,6 +17,7 @@ func registerIntrinsics(P *Program) {
 	registerDecCoins(P)
 	registerTime(P)
 	registerMisc(P)
+	registerBinary(P)
 	registerSDK(P)
 	registerSDK2(P)
 }
@@ -475,4 +476,113 @@ func (it *Interp) blobLen(b *BlobV) Value {
 	v := &Sym{S: SInt, T: name, Lo: big.NewInt(1), Hi: big.NewInt(1024)}
 	it.store[key] = v
 	return v
+}
+
+// encoding/binary big/little endian on possibly symbolic integers: bytes are (v div 2^k) mod 256 -------------------
+
+func (it *Interp) putUint(dst Value, v Value, n int, big_ bool) {
+	s := it.asSlice(dst)
+	if s.Len < n {
+		panic(&GoPanic{Msg: "runtime error: index out of range"})
+	}
+	arr := s.Arr.V.(*ArrayV)
+	for i := 0; i < n; i++ {
+		shift := 8 * i
+		if big_ {
+			shift = 8 * (n - 1 - i)
+		}
+		var b Value
+		if c, ok := v.(*big.Int); ok {
+			b = new(big.Int).And(new(big.Int).Rsh(c, uint(shift)), big.NewInt(255))
+		} else {
+			sy := mkModE(mkDivE(v, pow2(shift)), big.NewInt(256)).(*Sym)
+			sy.Lo, sy.Hi = big.NewInt(0), big.NewInt(255)
+			sy.PartOf, sy.PartShift = v.(*Sym).T, shift
+			b = sy
+		}
+		arr.Elems[s.Off+i] = b
+	}
+}
+
+func (it *Interp) getUint(src Value, n int, big_ bool) Value {
+	if b, ok := src.(*BlobV); ok && b.Kind == "u64be" && n == 8 && big_ {
+		return b.V
+	}
+	s := it.asSlice(src)
+	if s.Len < n {
+		panic(&GoPanic{Msg: "runtime error: index out of range"})
+	}
+	arr := s.Arr.V.(*ArrayV)
+	// peephole: the bytes are exactly the parts of one symbolic integer, in order
+	if first, ok := arr.Elems[s.Off].(*Sym); ok && first.PartOf != "" {
+		same := true
+		for i := 0; i < n; i++ {
+			shift := 8 * i
+			if big_ {
+				shift = 8 * (n - 1 - i)
+			}
+			e, ok := arr.Elems[s.Off+i].(*Sym)
+			if !ok || e.PartOf != first.PartOf || e.PartShift != shift {
+				same = false
+				break
+			}
+		}
+		if same {
+			return &Sym{S: SInt, T: first.PartOf, Lo: big.NewInt(0), Hi: new(big.Int).Sub(pow2(8*n), big.NewInt(1))}
+		}
+	}
+	var sum Value = big.NewInt(0)
+	for i := 0; i < n; i++ {
+		shift := 8 * i
+		if big_ {
+			shift = 8 * (n - 1 - i)
+		}
+		sum = mkAdd(sum, mkMul(arr.Elems[s.Off+i], pow2(shift)))
+	}
+	return sum
+}
+
+func registerBinary(P *Program) {
+	for _, e := range []struct {
+		name string
+		big_ bool
+	}{{"(encoding/binary.bigEndian)", true}, {"(encoding/binary.littleEndian)", false}} {
+		e := e
+		for _, w := range []struct {
+			suffix string
+			n      int
+		}{{"Uint64", 8}, {"Uint32", 4}, {"Uint16", 2}} {
+			w := w
+			P.reg(e.name+".Put"+w.suffix, func(it *Interp, a []Value) Value { it.putUint(a[1], a[2], w.n, e.big_); return nil })
+			P.reg(e.name+"."+w.suffix, func(it *Interp, a []Value) Value { return it.getUint(a[1], w.n, e.big_) })
+		}
+	}
+	// sort.Slice / sort.SliceStable: insertion sort driven by the (interpreted) less closure; comparisons must be concrete
+	sortSlice := func(it *Interp, a []Value) Value {
+		iv, _ := a[0].(*IfaceV)
+		if iv == nil {
+			return nil
+		}
+		s := it.asSlice(iv.V)
+		if s.Len < 2 {
+			return nil
+		}
+		el := s.Arr.V.(*ArrayV).Elems
+		for i := 1; i < s.Len; i++ {
+			for j := i; j > 0; j-- {
+				r := it.CallValue(a[1], big.NewInt(int64(j)), big.NewInt(int64(j-1)))
+				lt, ok := r.(bool)
+				if !ok {
+					panic(unsupported("sort.Slice with a symbolic comparison"))
+				}
+				if !lt {
+					break
+				}
+				el[s.Off+j], el[s.Off+j-1] = el[s.Off+j-1], el[s.Off+j]
+			}
+		}
+		return nil
+	}
+	P.reg("sort.Slice", sortSlice)
+	P.reg("sort.SliceStable", sortSlice)
 }
